@@ -973,6 +973,53 @@ func checkC17(w *World) {
 			}
 		})
 		w.check(P, "R17.4", "prefix stripping covers a colon at any position", strip.Pos(), strict == "", "comparison of the colon position: "+orElse(strict, "absent or inclusive of position 0"))
+		// the prefix ends at the FIRST colon (x:y:z -> y:z, as with the two-way split the tokenizer's names get)
+		last := ""
+		allInstrs(strip, func(in ssa.Instruction) {
+			if c, ok := in.(*ssa.Call); ok && staticCallee(c) != nil {
+				n := funcFullName(staticCallee(c))
+				if strings.HasPrefix(n, "strings.LastIndex") || n == "strings.Split" || n == "strings.Fields" || n == "path.Base" {
+					last = n
+				}
+				if n == "strings.SplitN" || n == "strings.SplitAfterN" {
+					if k, ok := constInt(c.Call.Args[2]); !ok || k != 2 {
+						last = n + " with a limit other than 2"
+					}
+				}
+			}
+		})
+		w.check(P, "R17.4", "prefix stripping cuts at the first colon", strip.Pos(), last == "", "search from the end / full split: "+orNone(last)+" (a name with two colons must lose only its first part)")
+	}
+	// every move of the cursor is along a link of the current node: FirstChild, NextSibling or Parent read from it
+	// (a cursor computed any other way - a search for the first element, a cached node - skips or repeats nodes)
+	if cursorField >= 0 {
+		allInstrs(pull, func(in ssa.Instruction) {
+			st, ok := in.(*ssa.Store)
+			if !ok {
+				return
+			}
+			fa, ok := st.Addr.(*ssa.FieldAddr)
+			if !ok || fa.X != ssa.Value(pull.Params[0]) || fa.Field != cursorField {
+				return
+			}
+			okLink := false
+			if ld, ok := st.Val.(*ssa.UnOp); ok {
+				if lfa, ok := ld.X.(*ssa.FieldAddr); ok {
+					switch fieldName(lfa) {
+					case "FirstChild", "NextSibling", "Parent":
+						// of the current node
+						if l2, ok := lfa.X.(*ssa.UnOp); ok {
+							if cfa, ok := l2.X.(*ssa.FieldAddr); ok && cfa.Field == cursorField {
+								okLink = true
+							}
+						}
+					}
+				}
+			}
+			if !okLink {
+				w.check(P, "R17.4", "cursor assignment", st.Pos(), false, "the cursor is set to "+describe(st.Val)+", not to the FirstChild/NextSibling/Parent of the current node")
+			}
+		})
 	}
 	w.floorSites(P, "R17.4", 7)
 }
